@@ -169,7 +169,7 @@ static const char *vh_step(const vh_step_t *st, vh_sb *ret, vh_sb *state) {
         if (SPIF_LIST_ISNULL(B)) return "dup=NULL";
         if (B == A) return "dup_returned_same_object";
         if (SPIF_OBJ_CLASS(B) != SPIF_OBJ_CLASS(A)) return "dup_class_differs";
-        if (strcmp((const char *) SPIF_LIST_TYPE(B), (const char *) SPIF_LIST_TYPE(A))) return "dup_type_differs";
+        if ((void *) SPIF_LIST_TYPE(B) != (void *) SPIF_OBJ_CLASS(A)) return "dup_type()_does_not_identify_the_class";
         sb_bool(ret, 1);
     } else if (OP("b_del")) {
         sb_bool(ret, SPIF_LIST_DEL(B)); B = (spif_list_t) NULL;
